@@ -182,6 +182,11 @@ def check(ctx):
     from . import C19
     from .common import Proxy, share
     share(ctx, 'C19', 'R5/C19.', ['R1.'])
+    # ... and they are probabilities: the selector normalises its cumulative sums, the point weight
+    # uses the raw alphas, so the estimator is unbiased only if every weight vector an iteration is
+    # run with sums to one (C08/R3: last write = division by the sum; first weights: C08/R5)
+    share(ctx, 'C08', 'R5/C08.', ['R3.normalised', 'R5.', 'R6.'])
+    share(ctx, 'C09', 'R5/C09.', ['R1.', 'R2.'])
 
     # ---------------------------------------------------------------- R4 PLAIN weight is one
     for f3 in instances(p, 'hep::plain_iteration'):
